@@ -30,6 +30,7 @@ mod job;
 mod oracle;
 mod parent;
 mod pool;
+mod progen;
 mod rng;
 mod sched;
 mod simenv;
@@ -77,6 +78,12 @@ fn main() {
             let (t, pid, order, gr, cr) = h.join().unwrap();
             println!("real time {} pid {}; simulated time {} pid {}; map order {:?}; getrandom calls {}; clock/pid reads {:?}", real, real_pid, t, pid, order, gr, cr);
             if t == 1_234_567_890 && pid == 4242 && gr >= 1 && real > 1_600_000_000 { 0 } else { 2 }
+        }
+        Some("progen") if args.len() >= 3 => {
+            let p = progen::progen(args[2].parse().unwrap_or(0));
+            println!("// args: {:?}", p.args);
+            print!("{}", String::from_utf8_lossy(&p.source));
+            0
         }
         Some("soup") if args.len() >= 3 => {
             let p = corpus::soup(args[2].parse().unwrap_or(0));
